@@ -199,7 +199,7 @@ def build_body(sigtype, pkalg, halg, hashed_area, unhashed_area, left16, mpis):
 
 def make(key, sigtype, halg, hashed_area, unhashed_area, subj, pkalg=None):
     """Sign. Returns the signature packet body."""
-    pkalg = keys.ALG_ID[key['alg']] if pkalg is None else pkalg
+    pkalg = keys.alg_octet(key) if pkalg is None else pkalg
     data = hash_input(sigtype, pkalg, halg, hashed_area, subj)
     dig = digest(halg, data)
     mpis = SIGN[key['alg']](key, halg, dig)
